@@ -182,14 +182,15 @@ def discover_prefix_entries(R):
     return sorted(ents)
 
 
-def run(ses, rep):
+def run(ses, rep, plan=None):
     quick = rep.tier == "quick"
-    plan = [("default", 2 if quick else 3, 1, False), ("full", 2 if quick else 3, 1, True)]
-    if quick:
-        plan.append(("default", 3, 0, False))     # 3 operators, no redundant parentheses: all precedence/associativity triples
-        plan.append(("default", 2, 2, False))     # up to two nested parentheses per edge
-    else:
-        plan.append(("full", 2, 2, True))
+    if plan is None:
+        plan = [("default", 2 if quick else 3, 1, False), ("full", 2 if quick else 3, 1, True)]
+        if quick:
+            plan.append(("default", 3, 0, False))     # 3 operators, no redundant parentheses: all precedence/associativity triples
+            plan.append(("default", 2, 2, False))     # up to two nested parentheses per edge
+        else:
+            plan.append(("full", 2, 2, True))
     rep.bounds.update({"tiers": [{"features": p[0], "max_operators": p[1], "max_nested_parens_per_edge": p[2], "type_assertions": p[3]} for p in plan]})
     rep.assumptions += ["width measurement, comment predicates and shape arithmetic are unconstrained (havoc): every layout path is explored",
                         "leaf formatters (format_var, format_function_call, format_table_constructor, format_token_reference, ...) return a node of the variant they are wrapped in; trivia updates return the same node (summaries)",
